@@ -23,6 +23,7 @@ func init() {
 }
 
 func runC07(c *eng.Ctx) {
+	indexFolderPaths(c, "PATH-index-folder")
 	P := c.P
 	entrySize, _ := namedConst(P, "weed/storage/types", "NeedleMapEntrySize")
 	idSize, _ := namedConst(P, "weed/storage/types", "NeedleIdSize")
